@@ -110,7 +110,7 @@ var commonReal = []string{
 var commonStub = []string{
 	"wall clock/timers: testing/synctest fake clock",
 	"crypto/rand: seeded stream (cryptotest.SetGlobalRandom) in non-race builds",
-	"Symantec VIP service, LDAP wire, SMTP: simulated backends behind entry hooks; Okta authentication API: simulated service behind http.DefaultClient's transport (the real lib/authenticators/okta and /api/v0/okta* handlers run against it); OAuth2 identity provider for federated login: simulated token and userinfo endpoints behind the same transport (real golang.org/x/oauth2 exchange and the real login/callback handlers); AWS STS for cloud-role certificates: simulated GetCallerIdentity validation of presigned URLs behind the same transport (real aws_identity_cert issuer and presign caller)",
+	"Symantec VIP user services: simulated at the wire (the real lib/vip builds the SOAP requests and evaluates the answers; its HTTPS POST is the seam), with approve / deny / in-progress / expired / unknown transaction states; LDAP wire, SMTP: simulated backends behind entry hooks; Okta authentication API: simulated service behind http.DefaultClient's transport (the real lib/authenticators/okta and /api/v0/okta* handlers run against it); OAuth2 identity provider for federated login: simulated token and userinfo endpoints behind the same transport (real golang.org/x/oauth2 exchange and the real login/callback handlers); AWS STS for cloud-role certificates: simulated GetCallerIdentity validation of presigned URLs behind the same transport (real aws_identity_cert issuer and presign caller)",
 	"TCP/TLS transport: requests built in-process; VerifiedChains produced by x509.Verify against the server's ClientCAPool as crypto/tls would",
 	"external password helper (external_auth_command): a real child process (fixtures/authhelper.sh) whose fate the plan decides (exit 0/1, dies from a signal, other exit status)",
 	"post-unseal steps inlined in main() (CA pool completion, password-cache storage hookup) are re-implemented in the harness",
@@ -135,7 +135,7 @@ func init() {
 	addSpec(&propSpec{ID: "C14", Level: "exploration", QuickRuns: 1200, ThorRuns: 30000, QuickSecs: 75, ThorSecs: 900})
 	addSpec(&propSpec{ID: "C19", Level: "exploration", QuickRuns: 480, ThorRuns: 12000, QuickSecs: 75, ThorSecs: 900,
 		Real: []string{"the client: cmd/keymaster setupCerts / insertSSHCertIntoAgentORWriteToFilesystem / signers.go (linked as a virtual package generated from the current tree, main() and flag registration dropped), lib/client/twofa, lib/client/sshagent, lib/client/util, net/http client with cookie jar; real x/crypto/ssh/agent protocol over an in-bubble pipe; real files in a per-run home directory"},
-		Stub: []string{"client side: the HTTP transport (recording RoundTripper that serialises each request, keeps the bytes and hands them to the server's real mux), the terminal (a regular file rewritten before each prompt), the SSH agent (x/crypto keyring behind the real agent protocol, with refusal modes and a foreign identity), the client's disk (cmd/keymaster's file writes pass through a seam to the real file system; fault: the k-th write finds the disk full and leaves half of the data), U2F/HID devices (none)"},
+		Stub: []string{"client side: the HTTP transport (recording RoundTripper that serialises each request, keeps the bytes and hands them to the server's real mux), the terminal (a regular file rewritten before each prompt), the SSH agent (x/crypto keyring behind the real agent protocol, with refusal modes and a foreign identity; reached through net.Dial of lib/client/sshagent, which is routed to the simulated transport: the designated socket named by SSH_AUTH_SOCK, optionally a stray agent socket of another process in the temporary directory), the client's disk (cmd/keymaster's file writes pass through a seam to the real file system; fault: the k-th write finds the disk full and leaves half of the data), U2F/HID devices (none)"},
 		Assume: []string{"the client's main() (flag parsing, config-file bootstrap, user lookup) is not run: the run starts at setupCerts with a constructed configuration; the terminal is a regular file the harness rewrites before each prompt; U2F-over-USB second factors are not exercised (no HID device in the bubble)"}})
 	addSpec(&propSpec{ID: "C20", Level: "fault_enumeration", QuickRuns: 480, ThorRuns: 12000, QuickSecs: 75, ThorSecs: 900,
 		Assume: []string{"the subscriber side decodes the notifier's stream with encoding/json exactly as eventmon/monitord.receiveV0 does; the 40-line glue of cmd/keymaster-eventmond (monitor channels -> recorder channels) is not exercised: events are fed to the recorder's public channels directly",
